@@ -4,7 +4,7 @@ import locks
 import cshim
 
 PROP = "C19"
-SPEC = ["Bng.Spec.C19", "Bng.Spec.C19Locks"]
+SPEC = ["Bng.Spec.C19", "Bng.Spec.C19Locks", "Bng.Spec.C19Race"]
 MON = ["over-admit", "starved", "zero-rate", "policy"]
 COMP = V.Component("qos", monitors=MON)
 COMPS = [COMP]
@@ -32,6 +32,18 @@ ASSUME = [
     "cap 10MB) when it is 0",
     "backlogged = every gap earns at most the previously offered packet and cannot overflow the bucket "
     "(Bng.TokenBucket.Backlogged, decidable from the arrival sequence)",
+    "two control-plane calls at once (op `race <word over A,B> <call> / <call>`): SetSubscriberQoS / RemoveSubscriberQoS are "
+    "driven write by write on goroutines of their own, parked between their writes by the verif hook c40da54; every schedule "
+    "of the 3+3 writes for Set/Remove and Remove/Set on one address (with and without an installed policy), a rotation of "
+    "Set/Set, Remove/Remove and two-address pairs; the model is the manager WITH its lock (fix 01bf152: a call that finds "
+    "the lock taken is reported `blocked` and does not move), Spec.C19Race.locked_calls_are_serial proves every schedule "
+    "ends as one call after the other, the unlocked witnesses A1_* are what the real code did before the fix; the `policy` "
+    "monitor judges the implementation's line alone: per address both entries of one of the two orders (or none) and that "
+    "order's subscriber count",
+    "map writes that fail (op `wfault e|i on|off`: the manager's handle is swapped, through the existing SetMapsForVerif "
+    "hook, for a closed duplicate of the map's descriptor - every Put AND every Delete through it fails; a failing Delete "
+    "alone is not produced): findings KF-qos-delete-ignored and KF-qos-half-install, each carried only by the verdict about an "
+    "entry of the write-protected direction; `race` is refused while a handle is write-protected",
 ]
 ASSUME = ASSUME + [locks.ASSUME]
 
